@@ -129,7 +129,8 @@ func closeUnderReductions(f *gen.Family, lists []gen.List) []gen.List {
 // C03 — local state and lexical scoping survive suspension.
 func C03(tier string) *core.Report {
 	r := core.NewReport("C03", tier)
-	for _, fr := range runFamilies(r, VarFamilies(tier), tier) {
+	fams := append(VarFamilies(tier), consGenFamily(tier))
+	for _, fr := range runFamilies(r, fams, tier) {
 		for _, f := range fr.Divergences("lockstep", "panic", "lockstep-under-panic", "fatal", "nondet", "nondet-ref") {
 			r.Fail(f)
 		}
